@@ -1,9 +1,291 @@
 package props
 
-import "verif/internal/core"
+import (
+	"bufio"
+	"bytes"
+	"encoding/json"
+	"fmt"
+	"path/filepath"
+	"sort"
+	"strings"
+	"sync"
+	"time"
 
-// C10 — stub, replaced by the real check.
+	"verif/internal/core"
+)
+
+// c10Case mirrors worker.C10Case: the orchestrator enumerates the shape of
+// every case and derives a sub-seed; the worker expands the sub-seed into the
+// concrete history (request sequence, Set-Cookie lists, client Cookie
+// headers / goroutine scripts), executes it and evaluates the oracles.
+type c10Case struct {
+	ID         string `json:"id"`
+	Kind       string `json:"kind"` // seq | evict | conc
+	Seed       int64  `json:"seed"`
+	Sessions   int    `json:"sessions"`
+	Hosts      int    `json:"hosts"`
+	Steps      int    `json:"steps"`
+	CacheLimit int    `json:"cache_limit"`
+	CookieName string `json:"cookie_name"`
+	LifetimeS  int    `json:"lifetime_s"`
+	DisableSSL bool   `json:"disable_ssl"`
+	Interim    bool   `json:"interim"`
+	Goroutines int    `json:"goroutines"`
+	Forced     bool   `json:"forced"`
+	Evict      bool   `json:"evict"`
+	Sample     bool   `json:"sample"`
+}
+
+type c10Viol struct {
+	Sig    string      `json:"sig"`
+	Msg    string      `json:"msg"`
+	Step   int         `json:"step"`
+	Detail interface{} `json:"detail,omitempty"`
+}
+
+type c10Result struct {
+	ID         string      `json:"id"`
+	Kind       string      `json:"kind"`
+	Class      string      `json:"class"`
+	Requests   int         `json:"requests"`
+	CookiesSet int         `json:"cookies_set"`
+	Deletes    int         `json:"cookie_deletes"`
+	JarCookies int         `json:"jar_cookies"`
+	Issued     int         `json:"session_cookies"`
+	AttrKinds  []string    `json:"attr_kinds"`
+	Violations []c10Viol   `json:"violations"`
+	Problems   []string    `json:"problems"`
+	Trace      interface{} `json:"trace"`
+
+	PorcOps        int    `json:"porc_ops"`
+	PorcPartitions int    `json:"porc_partitions"`
+	PorcVerdict    string `json:"porc_verdict"`
+	Overlaps       int    `json:"overlapping_rw"`
+	MaxInFlight    int    `json:"max_in_flight"`
+	BarrierMet     int    `json:"barrier_met"`
+	BarrierTimeout int    `json:"barrier_timeouts"`
+	ForcedTrials   int    `json:"forced_trials"`
+	OrderSig       string `json:"order_sig"`
+	QuiescentRegs  int    `json:"quiescent_registers"`
+	DurationMs     int64  `json:"duration_ms"`
+
+	HookHits map[string]int64 `json:"hook_hits"` // only on the "__summary__" line
+}
+
+// C10 — session tracking hides backend cookies and never mixes sessions.
 func C10(r *core.Run) {
-	r.Broken("check not implemented yet")
-	r.Finish(1)
+	r.SetRule("sessions.Cache.SessionHandler driven in-process (race-built worker, -tags verif) over a scripted backend, requests from http.ReadRequest on bare goroutines; " +
+		"sequential histories against one model net/http/cookiejar per session ID (exact oracle on client-visible Set-Cookie and backend-visible Cookie multisets), eviction histories (cache limit 3-5, more sessions), " +
+		"concurrent rounds (8-16 goroutines, session-tagged cookie values, porcupine register per (session, cookie name), quiescent comparison, barrier-forced overlapping first uses of one new session ID via the verifhook points sessions.jar.lookup / sessions.jar.store). " +
+		"class = kind | #sessions | #hosts | cache limit | SSL override | Domain classes, deletion forms and client Cookie layouts the history exercised (sequential) or goroutines | sessions | limit | forced/free/evicting (concurrent)")
+	r.Assume("jar semantics are whatever net/http/cookiejar (public suffix list) does for https://<Host><path>; the model parses the backend's Set-Cookie values with net/http's own parser and serialises jar cookies the way http.Client does")
+	r.Assume("an empty-valued session cookie is never generated; a session ID the agent did not issue is only required to be isolated (never another session's cookies), not remembered, in the sequential histories")
+	r.Assume("eviction: only the cacheLimit-1 most recently used sessions are required to be restored (the cookie-less pseudo session may hold one slot)")
+	r.Assume("time enters only through the session cookie's Expires (+-2 min) and cookie lifetimes >= 3600 s or <= 0")
+	bin := r.MustBuild(r.BuildWorker())
+
+	// ---- case list: pure function of seed and tier
+	rng := r.Rand("c10")
+	names := []string{"SID", "proxy-session", "__Host-agent", "x.y_z"}
+	lifetimes := []int{600, 3600, 43200, 2592000}
+	nSeq := r.Pick(200, 5000)
+	nConc := r.Pick(30, 1000)
+	var seq, conc []c10Case
+	for i := 0; i < nSeq; i++ {
+		c := c10Case{
+			ID: fmt.Sprintf("s%d-seq-%d", r.Seed, i), Kind: "seq", Seed: rng.Int63(),
+			Sessions: 2 + i%5, Hosts: 1 + (i/5)%3, Steps: 24 + rng.Intn(13),
+			CacheLimit: 1000, DisableSSL: (i/15)%2 == 1,
+			CookieName: names[(i/30)%len(names)], LifetimeS: lifetimes[(i/7)%len(lifetimes)],
+		}
+		switch {
+		case i%8 == 7: // eviction history: cache limit 3-5, more sessions than that
+			c.Kind = "evict"
+			c.ID = fmt.Sprintf("s%d-evict-%d", r.Seed, i)
+			c.CacheLimit = 3 + (i/8)%3
+			c.Sessions = c.CacheLimit + 1 + (i/24)%4
+			c.Hosts = 1
+			c.Steps += 12
+		}
+		// every third history: some responses are preceded by an interim 103, relayed the way
+		// httputil.ReverseProxy relays it (Link header set, WriteHeader(103), header map cleared)
+		c.Interim = i%3 == 1
+		c.Sample = i < 2 || i == 7
+		seq = append(seq, c)
+	}
+	for i := 0; i < nConc; i++ {
+		c := c10Case{
+			ID: fmt.Sprintf("s%d-conc-%d", r.Seed, i), Kind: "conc", Seed: rng.Int63(),
+			Goroutines: 8 + (i*3)%9, Sessions: 2 + i%4, Steps: 10 + rng.Intn(9),
+			CacheLimit: 1000, DisableSSL: i%3 == 0, Forced: i%2 == 0,
+			CookieName: names[(i/4)%len(names)], LifetimeS: lifetimes[i%len(lifetimes)],
+		}
+		if i%5 == 4 { // concurrent eviction: safety only
+			c.Evict = true
+			c.CacheLimit = 3 + (i/5)%3
+			c.Sessions = c.CacheLimit + 2
+		}
+		conc = append(conc, c)
+	}
+	all := append(append([]c10Case{}, seq...), conc...)
+	if r.OnlyCase >= 0 && r.OnlyCase < len(all) {
+		one := all[r.OnlyCase]
+		seq, conc = nil, nil
+		if one.Kind == "conc" {
+			conc = []c10Case{one}
+		} else {
+			seq = []c10Case{one}
+		}
+		all = []c10Case{one}
+	}
+	byID := map[string]c10Case{}
+	for _, c := range all {
+		byID[c.ID] = c
+	}
+
+	// ---- run: sequential histories 4 at a time per process; concurrent rounds one at a time per
+	// process (the hook handler is process-global)
+	var mu sync.Mutex
+	var results []c10Result
+	hookHits := map[string]int64{}
+	var wg sync.WaitGroup
+	shard := func(cases []c10Case, shards, parallel int) {
+		if len(cases) < shards*2 {
+			shards = 1
+		}
+		for s := 0; s < shards; s++ {
+			var part []c10Case
+			for i := s; i < len(cases); i += shards {
+				part = append(part, cases[i])
+			}
+			if len(part) == 0 {
+				continue
+			}
+			wg.Add(1)
+			go func(part []c10Case) {
+				defer wg.Done()
+				spec, _ := json.Marshal(map[string]interface{}{"parallel": parallel, "cases": part})
+				stdout, logPath, err := r.RunWorker(bin, "c10", spec, time.Duration(r.Pick(5, 15))*time.Minute)
+				sc := bufio.NewScanner(bytes.NewReader(stdout))
+				sc.Buffer(make([]byte, 1<<20), 1<<28)
+				mu.Lock()
+				for sc.Scan() {
+					var res c10Result
+					if json.Unmarshal(sc.Bytes(), &res) != nil || res.ID == "" {
+						continue
+					}
+					if res.ID == "__summary__" {
+						for k, v := range res.HookHits {
+							hookHits[k] += v
+						}
+						continue
+					}
+					results = append(results, res)
+				}
+				mu.Unlock()
+				if err != nil {
+					markers := core.CrashMarkers(logPath)
+					for _, ex := range markers {
+						r.Violate(core.CrashSignature(ex), "worker (= agent code in-process) crashed while running cases "+fmt.Sprint(core.LastStarted(logPath, 4))+": "+core.Trunc(ex, 1500), nil, ex)
+					}
+					if len(markers) == 0 {
+						r.Broken(fmt.Sprintf("c10 worker failed: %v", err))
+					}
+				}
+			}(part)
+		}
+	}
+	shard(seq, r.Pick(4, 6), 4)
+	shard(conc, r.Pick(6, 10), 1)
+	wg.Wait()
+
+	// ---- verdicts and evidence
+	sort.Slice(results, func(i, j int) bool { return results[i].ID < results[j].ID })
+	seen := map[string]bool{}
+	orderSigs := map[string]bool{}
+	kinds := map[string]int{}
+	samples := map[string]int{}
+	for _, res := range results {
+		c, ok := byID[res.ID]
+		if !ok || seen[res.ID] {
+			continue
+		}
+		seen[res.ID] = true
+		r.Case(res.Class)
+		r.Add("requests", res.Requests)
+		r.Add("backend_set_cookies_parsed", res.CookiesSet)
+		r.Add("cookie_deletions", res.Deletes)
+		r.Add("jar_cookies_compared_at_backend", res.JarCookies)
+		r.Add("session_cookies_attribute_checked", res.Issued)
+		for _, k := range res.AttrKinds {
+			kinds[k]++
+		}
+		for _, p := range res.Problems {
+			r.Inconclusive(res.ID + ": " + p)
+		}
+		for _, v := range res.Violations {
+			detail := map[string]interface{}{"step": v.Step, "detail": v.Detail}
+			if res.Trace != nil {
+				detail["history_up_to_failure"] = res.Trace
+			}
+			r.Violate("C10:"+v.Sig, fmt.Sprintf("%s: %s", res.ID, v.Msg), c, detail)
+		}
+		switch c.Kind {
+		case "conc":
+			r.Add("concurrent_rounds", 1)
+			r.Add("porcupine_operations_checked", res.PorcOps)
+			r.Add("porcupine_partitions", res.PorcPartitions)
+			r.Add("reads_overlapping_a_write_of_the_same_cookie", res.Overlaps)
+			r.Add("quiescent_registers_compared", res.QuiescentRegs)
+			r.Add("forced_first_use_trials", res.ForcedTrials)
+			r.Add("forced_barrier_meetings", res.BarrierMet)
+			r.Add("forced_barrier_timeouts", res.BarrierTimeout)
+			r.Max("max_in_flight", res.MaxInFlight)
+			orderSigs[res.OrderSig] = true
+			switch res.PorcVerdict {
+			case "unknown":
+				r.Inconclusive(res.ID + ": porcupine did not decide within 60s")
+			case "ok":
+				r.Add("rounds_linearizable", 1)
+			}
+		case "evict":
+			r.Add("eviction_histories", 1)
+		default:
+			r.Add("sequential_histories", 1)
+		}
+		if samples[c.Kind] < 2 && len(res.Violations) == 0 && (c.Kind == "conc" || res.Trace != nil) {
+			samples[c.Kind]++
+			s := map[string]interface{}{"case": c, "class": res.Class, "requests": res.Requests, "cookies_set": res.CookiesSet, "ms": res.DurationMs}
+			if c.Kind == "conc" {
+				s["porcupine"] = map[string]interface{}{"verdict": res.PorcVerdict, "operations": res.PorcOps, "partitions": res.PorcPartitions, "reads_overlapping_writes": res.Overlaps}
+				s["max_in_flight"] = res.MaxInFlight
+				s["barrier_met"] = res.BarrierMet
+			} else {
+				s["first_steps"] = res.Trace
+			}
+			r.Sample(s)
+		}
+	}
+	for _, c := range all {
+		if !seen[c.ID] {
+			r.Inconclusive("no result for case " + c.ID + " (worker died?)")
+		}
+	}
+	r.Set("interleaving_signatures", len(orderSigs))
+	r.Set("hook_hits", hookHits)
+	kindList := []string{}
+	for k, n := range kinds {
+		kindList = append(kindList, fmt.Sprintf("%s=%d", k, n))
+	}
+	sort.Strings(kindList)
+	r.Set("input_kinds_histories", strings.Join(kindList, " "))
+	if len(conc) > 0 && r.OnlyCase < 0 && hookHits["sessions.jar.lookup"] == 0 {
+		r.Broken("hook point sessions.jar.lookup was never hit: worker not built with -tags verif?")
+	}
+	r.JudgeRaces(core.ParseRaceLogs(filepath.Join(r.WorkDir, "race-")))
+	min := (nSeq + nConc) * 9 / 10
+	if r.OnlyCase >= 0 {
+		min = 1
+	}
+	r.Finish(min)
 }
